@@ -150,9 +150,9 @@ func init() {
 			"with the reference renderer; distinct = distinct (sources, data); non-trivial = >= 2 command kinds and >= 1 binding",
 		N: func(tier string) int {
 			if tier == "thorough" {
-				return 400000
+				return 3000000
 			}
-			return 20000
+			return 100000
 		},
 		Run: func(ctx *fw.Ctx, i int) fw.Result {
 			g := &gen.G{R: ctx.Rng}
@@ -161,8 +161,9 @@ func init() {
 			if bad := ref.Check(prog.B); len(bad) > 0 {
 				return fw.Result{Verdict: fw.Inconclusive, Key: "generator-invalid", Msg: strings.Join(bad, "; ")}
 			}
-			lay := ref.Layout{Multiline: ctx.Rng.Bool()}
+			lay := ref.Layout{Multiline: ctx.Rng.Bool(), CRLF: ctx.Rng.P(1, 5)}
 			files := bundleSources(prog.B, lay)
+			ctx.Cell(fmt.Sprintf("layout:multiline=%v,crlf=%v", lay.Multiline, lay.CRLF))
 			kinds, bindings := shapeOf(prog.B)
 			for k := range kinds {
 				ctx.Cell("cmd:" + k)
